@@ -1,7 +1,20 @@
 import ZCV.Lemmas.Misc
 import ZCV.Model.Matcher
+import ZCV.Lemmas.PositionLoader
+import ZCV.Lemmas.PositionEx
+import ZCV.Lemmas.PositionExLoader
+/-!
+C08 — a rejected configuration names the resource and line that caused the rejection.
+
+Per-site facts first (`synErr`, `keyValue`, `closeFixup`), then the whole-parse theorems: every failing parse has exactly one
+culprit line (`Culprit`, through `%include`s at any depth), the error comes from one of the sites listed in `LineErr` at that
+line, and it carries the culprit's number and resource — with the exact list of exceptions.  Definitions are in
+`ZCV/Lemmas/Position*.lean`.
+-/
 namespace ZCV.Props.C08
 open ZCV ZCV.Cfg
+
+/-! ## single sites -/
 
 /-- every syntax error the parser itself raises names the line it is processing and the resource's URL -/
 theorem C08_synErr_position (url : Option Str) (line : Nat) (tag : String) :
@@ -26,5 +39,417 @@ theorem C08_key_line_error_position {σ} (env : Env) (c : PCtx σ) (url : Option
 theorem C08_close_error_has_line {σ} (url : Option Str) (line : Nat) (r : M σ) (e : Err)
     (h : closeFixup url line r = .error (.cfg e)) : e.line ≠ none :=
   closeFixup_error_has_line url line r e h
+
+/-! ## whole parses: the culprit line -/
+
+/-- Every failing parse — whatever the context, the lines, the nesting of `%include`s — fails at exactly one place: there is
+    a resource `u`, a 1-based line number `n` in it and the parser state `sF` in which that line is read such that
+    `Culprit … f u n sF` holds, and any two such descriptions coincide.  (`Culprit` walks down the lines: lines that succeed
+    are passed, an `%include` that has opened its resource is entered and lines are counted from 1 again, the first line that
+    fails otherwise is the culprit; the end of a resource with sections still open counts as its last line.) -/
+theorem C08_failing_parse_has_unique_culprit {σ} (fuel : Nat) (env : Env) (c : PCtx σ) (active : List Str) (url : Option Str)
+    (lines : List Str) (lineno : Nat) (st : PS σ) (f : Fail) :
+    parseLines fuel env c active url lines lineno st = .error f ↔
+      ∃ u n sF, Culprit env c fuel active url lines lineno st f u n sF ∧
+        ∀ f' u' n' sF', Culprit env c fuel active url lines lineno st f' u' n' sF' → f' = f ∧ u' = u ∧ n' = n ∧ sF' = sF := by
+  constructor
+  · intro h
+    obtain ⟨u, n, sF, hc⟩ := culprit_complete env c fuel active url lines lineno st f h
+    refine ⟨u, n, sF, hc, fun f' u' n' sF' hc' => ?_⟩
+    obtain ⟨h1, h2, h3, h4⟩ := culprit_unique hc hc'
+    exact ⟨h1.symm, h2.symm, h3.symm, h4.symm⟩
+  · rintro ⟨u, n, sF, hc, _⟩
+    exact culprit_sound hc
+
+/-- the instance of `ZCV/Lemmas/PositionEx.lean`: the main resource `m` includes `x` on its line 2, and line 2 of `x` is a key
+    line the context refuses without giving a position: the culprit is line 2 of `x` -/
+example : Culprit PosEx.env PosEx.ctx 1 [['m']] (some ['m']) PosEx.main 0 PosEx.st0 (.cfg PosEx.err) (some ['x']) 2
+    (subState PosEx.st0) := PosEx.culprit
+
+/-- The culprit lies in the resource being read or in a resource reached from it through `%include`, and its number lies within
+    that resource (for the resource being read: among the lines still to be read, `lineno + 1 … lineno + #lines`, or
+    `lineno + #lines` for the end of the resource). -/
+theorem C08_culprit_in_this_or_included_resource {σ} {env : Env} {c : PCtx σ} {fuel : Nat} {active : List Str}
+    {url : Option Str} {lines : List Str} {lineno : Nat} {st : PS σ} {f : Fail} {u : Option Str} {n : Nat} {sF : PS σ}
+    (h : Culprit env c fuel active url lines lineno st f u n sF) :
+    Reach env url u ∧
+      ((u = url ∧ lineno ≤ n ∧ n ≤ lineno + lines.length) ∨
+       (∃ u' L, u = some u' ∧ env.res u' = some L ∧ n ≤ L.length)) :=
+  culprit_where h
+
+/-- The culprit in terms of line indices (`firstBad` = index of the first line of *this* resource whose processing fails):
+    if all lines are processed the parse can only fail at the end of the resource ("unclosed sections"); otherwise the first
+    failing line `k` (numbered `lineno + k + 1`) is the culprit, unless it is an `%include` that has opened its resource — then
+    the culprit is the culprit of the parse of that resource, which starts counting at 1. -/
+theorem C08_culprit_by_index {σ} {env : Env} {c : PCtx σ} {fuel : Nat} {active : List Str} {url : Option Str}
+    {lines : List Str} {lineno : Nat} {st : PS σ} {f : Fail} {u : Option Str} {n : Nat} {sF : PS σ}
+    (h : Culprit env c fuel active url lines lineno st f u n sF) :
+    (firstBad fuel env c active url lines lineno st = none ∧
+        f = synErr url (lineno + lines.length) "unclosed sections" ∧ u = url ∧ n = lineno + lines.length) ∨
+    (∃ k l st', firstBad fuel env c active url lines lineno st = some k ∧ lines[k]? = some l ∧
+        runLines fuel env c active url (lines.take k) lineno st = .ok st' ∧
+        ((u = url ∧ n = lineno + k + 1 ∧ sF = st' ∧
+            (∀ fuel' u1 sub, ¬ Enters fuel env c active url (lineno + k + 1) (strip l) st' fuel' u1 sub) ∧
+            stepLine fuel env c active url (lineno + k + 1) (strip l) st' = .error f) ∨
+         (∃ fuel' u1 sub, Enters fuel env c active url (lineno + k + 1) (strip l) st' fuel' u1 sub ∧
+            Culprit env c fuel' (u1 :: active) (some u1) sub 0 (subState st') f u n sF))) := by
+  cases hfb : firstBad fuel env c active url lines lineno st with
+  | none =>
+    obtain ⟨h1, h2, h3, _⟩ := culprit_of_firstBad_none h hfb
+    exact .inl ⟨rfl, h1, h2, h3⟩
+  | some k =>
+    obtain ⟨l, st', h1, h2, h3⟩ := culprit_of_firstBad_some h hfb
+    exact .inr ⟨k, l, st', rfl, h1, h2, h3⟩
+
+/-! ## whole parses: the origin and the position of the error -/
+
+/-- A configuration error that ends a parse was raised at the culprit line by one of five sites (`LineErr`): the parser itself
+    (syntax, directive and substitution errors, header errors turned into syntax errors, missing/surplus items found on the
+    closing line, unclosed sections), `addValue` (fixed up), `endSection` with a conversion error (fixed up),
+    `importSchemaComponent` (untouched), or the refusal of an `%include` before its resource is read. -/
+theorem C08_error_origin {σ} {env : Env} {c : PCtx σ} {fuel : Nat} {active : List Str} {url : Option Str} {lines : List Str}
+    {lineno : Nat} {st : PS σ} {e : Err} {u : Option Str} {n : Nat} {sF : PS σ}
+    (h : Culprit env c fuel active url lines lineno st (.cfg e) u n sF) : LineErr c u n sF e :=
+  culprit_lineErr h
+
+/-- **Exceptions, exactly.**  Whatever the context does, a configuration error that ends a parse carries a non-negative line
+    number, unless it was raised by `importSchemaComponent` (`%import` of an unknown package …: the context's error passes
+    through untouched) or it is the refusal of an `%include` (fragment identifier, resource that cannot be opened, resource
+    that includes itself: plain errors without line). -/
+theorem C08_error_line_or_exception {σ} (fuel : Nat) (env : Env) (c : PCtx σ) (active : List Str) (url : Option Str)
+    (lines : List Str) (lineno : Nat) (st : PS σ) (e : Err)
+    (h : parseLines fuel env c active url lines lineno st = .error (.cfg e)) :
+    (∃ m : Int, e.line = some m ∧ 0 ≤ m) ∨ (∃ s pkg, c.imp s pkg = .error (.cfg e)) ∨ IncludeRefusal e := by
+  obtain ⟨u, n, sF, hc⟩ := culprit_complete env c fuel active url lines lineno st _ h
+  rcases (culprit_lineErr hc).line_or_exception with h1 | ⟨pkg, h2⟩ | h3
+  · exact .inl h1
+  · exact .inr (.inl ⟨_, pkg, h2⟩)
+  · exact .inr (.inr h3)
+
+/-- **Every line-bound error has a line.**  A syntax, conversion, replacement or substitution-syntax error that ends a parse
+    carries a (non-negative) line number — for every context whose `importSchemaComponent` does not itself raise such an
+    error without one. -/
+theorem C08_error_has_line {σ} (fuel : Nat) (env : Env) (c : PCtx σ) (active : List Str) (url : Option Str)
+    (lines : List Str) (lineno : Nat) (st : PS σ) (e : Err)
+    (himp : ∀ s pkg e', c.imp s pkg = .error (.cfg e') → lineKind e'.kind → ∃ m : Int, e'.line = some m ∧ 0 ≤ m)
+    (h : parseLines fuel env c active url lines lineno st = .error (.cfg e))
+    (hk : e.kind = .syntax ∨ e.kind = .conversion ∨ e.kind = .replacement ∨ e.kind = .substSyntax) :
+    e.line.isSome = true ∧ ∀ m, e.line = some m → 0 ≤ m := by
+  obtain ⟨u, n, sF, hc⟩ := culprit_complete env c fuel active url lines lineno st _ h
+  obtain ⟨m, hm, hm0⟩ := (culprit_lineErr hc).has_line hk (himp sF.ctx)
+  rw [hm]
+  exact ⟨rfl, fun m' h' => by cases h'; exact hm0⟩
+
+/-- non-vacuity: a parse that fails with a syntax error (a closing line without an open section), for any context -/
+example {σ} (c : PCtx σ) (s : σ) :
+    parseLines 0 PosEx.env c [] none [['<', '/', 'a', '>']] 0 { ctx := s, stack := [], defs := [] } =
+      .error (synErr none 1 "unexpected section end") := by
+  have hs : lineShape (strip ['<', '/', 'a', '>']) = .close ['a'] := by decide
+  rw [parseLines, stepLine]
+  simp only [hs]
+  rfl
+
+/-- for the schema-driven loader the premise about `importSchemaComponent` holds (it only raises schema errors): every
+    syntax, conversion, replacement or substitution-syntax error of a load's parse has a line number -/
+theorem C08_loader_error_has_line (fuel : Nat) (env : Env) (active : List Str) (url : Option Str)
+    (lines : List Str) (lineno : Nat) (st : PS LS) (e : Err)
+    (h : parseLines fuel env loaderCtx active url lines lineno st = .error (.cfg e))
+    (hk : e.kind = .syntax ∨ e.kind = .conversion ∨ e.kind = .replacement ∨ e.kind = .substSyntax) :
+    e.line.isSome = true ∧ ∀ m, e.line = some m → 0 ≤ m := by
+  refine C08_error_has_line fuel env loaderCtx active url lines lineno st e ?_ h hk
+  intro s pkg e' hi hk'
+  rcases lsImport_error s pkg e' hi with h1 | h1 <;> rw [h1] at hk' <;> rcases hk' with h | h | h | h <;> cases h
+
+/-- **The position is the culprit's.**  Let the context raise its `addValue` errors without a position or with the one it was
+    handed (unknown key, repeated key, key that cannot be converted), and its `endSection` conversion errors without a position.
+    Then the error that ends the parse names the culprit line and its resource — `e.line = n`, `e.url = u`, where `u` is the
+    resource being read or one reached from it by `%include` (`C08_culprit_in_this_or_included_resource`), and `n` is counted
+    within `u` — except for the errors of `importSchemaComponent` and the refusals of `%include`. -/
+theorem C08_error_in_this_or_included_resource {σ} (fuel : Nat) (env : Env) (c : PCtx σ) (active : List Str)
+    (url : Option Str) (lines : List Str) (lineno : Nat) (st : PS σ) (e : Err)
+    (hv : ∀ s key v p e', c.value s key v p = .error (.cfg e') → NoPos e' ∨ (e'.line = some p.line ∧ e'.url = p.url))
+    (hs : ∀ s ty nm e', c.stop s ty nm = .error (.cfg e') → e'.kind = .conversion → NoPos e')
+    (h : parseLines fuel env c active url lines lineno st = .error (.cfg e)) :
+    ∃ u n sF, Culprit env c fuel active url lines lineno st (.cfg e) u n sF ∧ Reach env url u ∧
+      ((e.line = some (n : Int) ∧ e.url = u) ∨ (∃ pkg, c.imp sF.ctx pkg = .error (.cfg e)) ∨ IncludeRefusal e) := by
+  obtain ⟨u, n, sF, hc⟩ := culprit_complete env c fuel active url lines lineno st _ h
+  refine ⟨u, n, sF, hc, (culprit_where hc).1, ?_⟩
+  exact (culprit_lineErr hc).position (fun key v e' h' => hv _ _ _ _ _ h') (fun ctx ty nm e' _ h' hk => hs _ _ _ _ h' hk)
+
+/-- non-vacuity, and the included resource counting its own lines: in the instance of `PositionEx.lean` the error names line 2
+    of the included resource `x`, not line 2 of `m` where the `%include` stands -/
+example : parseLines 1 PosEx.env PosEx.ctx [['m']] (some ['m']) PosEx.main 0 PosEx.st0 = .error (.cfg PosEx.err) ∧
+    PosEx.err.line = some 2 ∧ PosEx.err.url = some ['x'] := ⟨PosEx.parse_fails, rfl, rfl⟩
+
+/-- **This resource, by line index.**  If line `k` of the lines being read is the first whose processing fails and it is not an
+    `%include` line, the error names exactly that line (`lineno + k + 1`) and this resource — under the same premises on the
+    context, and except for the errors of `importSchemaComponent`. -/
+theorem C08_error_position_at_line {σ} (fuel : Nat) (env : Env) (c : PCtx σ) (active : List Str)
+    (url : Option Str) (lines : List Str) (lineno : Nat) (st : PS σ) (e : Err) (k : Nat) (l : Str)
+    (hv : ∀ s key v p e', c.value s key v p = .error (.cfg e') → NoPos e' ∨ (e'.line = some p.line ∧ e'.url = p.url))
+    (hs : ∀ s ty nm e', c.stop s ty nm = .error (.cfg e') → e'.kind = .conversion → NoPos e')
+    (hfb : firstBad fuel env c active url lines lineno st = some k) (hl : lines[k]? = some l)
+    (hni : ∀ a, lineShape (strip l) ≠ .include_ a)
+    (h : parseLines fuel env c active url lines lineno st = .error (.cfg e)) :
+    (e.line = some ((lineno + k + 1 : Nat) : Int) ∧ e.url = url) ∨ (∃ s pkg, c.imp s pkg = .error (.cfg e)) := by
+  obtain ⟨u, n, sF, hc⟩ := culprit_complete env c fuel active url lines lineno st _ h
+  obtain ⟨l', st', hl', _, hcase⟩ := culprit_of_firstBad_some hc hfb
+  rw [hl] at hl'
+  cases hl'
+  rcases hcase with ⟨rfl, rfl, rfl, _, hstep⟩ | ⟨fuel', u1, sub, ⟨arg, _, hsh, _⟩, _⟩
+  · rcases (culprit_lineErr hc).position (fun key v e' h' => hv _ _ _ _ _ h')
+        (fun ctx ty nm e' _ h' hk => hs _ _ _ _ h' hk) with h1 | ⟨pkg, h2⟩ | h3
+    · exact .inl h1
+    · exact .inr ⟨_, pkg, h2⟩
+    · -- an `%include` refusal can only come from an `%include` line
+      rcases stepLine_noninclude_line _ _ _ _ _ _ _ _ _ hni hstep with h4 | ⟨pkg, h4⟩
+      · exact absurd h3.2.1 h4
+      · exact .inr ⟨_, pkg, h4⟩
+  · exact absurd hsh (hni _)
+
+/-- **This resource, an `%include` line.**  If the first failing line `k` is an `%include` line, then either the error is a
+    substitution error in its argument and names that line and this resource, or the resource was refused before being read (the
+    listed exceptions), or the included resource has been opened and the error is exactly the error of its parse — to which all
+    of the above applies again, with its own URL and its own line count starting at 1. -/
+theorem C08_error_position_at_include_line {σ} (fuel : Nat) (env : Env) (c : PCtx σ) (active : List Str)
+    (url : Option Str) (lines : List Str) (lineno : Nat) (st : PS σ) (e : Err) (k : Nat) (l a : Str)
+    (hfb : firstBad fuel env c active url lines lineno st = some k) (hl : lines[k]? = some l)
+    (hi : lineShape (strip l) = .include_ a)
+    (h : parseLines fuel env c active url lines lineno st = .error (.cfg e)) :
+    (e.line = some ((lineno + k + 1 : Nat) : Int) ∧ e.url = url ∧ (e.kind = .replacement ∨ e.kind = .substSyntax)) ∨
+    IncludeRefusal e ∨
+    ∃ st' fuel' u sub, runLines fuel env c active url (lines.take k) lineno st = .ok st' ∧
+      Enters fuel env c active url (lineno + k + 1) (strip l) st' fuel' u sub ∧
+      parseLines fuel' env c (u :: active) (some u) sub 0 (subState st') = .error (.cfg e) := by
+  obtain ⟨u, n, sF, hc⟩ := culprit_complete env c fuel active url lines lineno st _ h
+  obtain ⟨l', st', hl', hrun, hcase⟩ := culprit_of_firstBad_some hc hfb
+  rw [hl] at hl'
+  cases hl'
+  rcases hcase with ⟨_, _, _, hne, hstep⟩ | ⟨fuel', u1, sub, hen, hsub⟩
+  · rcases stepLine_include_error _ _ _ _ _ _ _ _ _ _ hi hstep with ⟨h1, h2, h3, _⟩ | h5 | ⟨f', u', sub', hen, _⟩
+    · exact .inl ⟨h1, h2, h3⟩
+    · exact .inr (.inl h5)
+    · exact absurd hen (hne _ _ _)
+  · exact .inr (.inr ⟨st', fuel', u1, sub, hrun, hen, culprit_sound hsub⟩)
+
+/-- **The real loader, all errors that are not conversion errors** (malformed syntax, bad directives, undefined or malformed
+    substitutions, unknown or repeated keys, unknown or misplaced section headers, missing or surplus items found on a closing
+    line, unclosed sections): no premise is needed — the error names the culprit line and its resource, except for the schema
+    errors of `%import` and the refusals of `%include`. -/
+theorem C08_loader_error_position (fuel : Nat) (env : Env) (active : List Str) (url : Option Str)
+    (lines : List Str) (lineno : Nat) (st : PS LS) (e : Err)
+    (h : parseLines fuel env loaderCtx active url lines lineno st = .error (.cfg e)) (hk : e.kind ≠ .conversion) :
+    ∃ u n sF, Culprit env loaderCtx fuel active url lines lineno st (.cfg e) u n sF ∧ Reach env url u ∧
+      ((e.line = some (n : Int) ∧ e.url = u) ∨
+       ((e.kind = .schema ∨ e.kind = .schemaResource) ∧ ∃ pkg, lsImport sF.ctx pkg = .error (.cfg e)) ∨
+       IncludeRefusal e) := by
+  obtain ⟨u, n, sF, hc⟩ := culprit_complete env loaderCtx fuel active url lines lineno st _ h
+  exact ⟨u, n, sF, hc, (culprit_where hc).1, loader_lineErr_position (culprit_lineErr hc) hk⟩
+
+/-! ## `<type/>` behaves like `<type>` followed by `</type>`, errors included -/
+
+/-- The self-closing form does exactly what the opening line followed by the closing line would do if both stood on the line of
+    the `<type/>`: same resulting state, same error (kind, text, position). -/
+theorem C08_empty_form_eq_open_then_close {σ} (fuel : Nat) (env : Env) (c : PCtx σ) (active : List Str) (url : Option Str)
+    (line : Nat) (l l1 l2 ty : Str) (nm : Option Str) (st : PS σ)
+    (h : lineShape l = .open_ ty nm true) (h1 : lineShape l1 = .open_ ty nm false) (h2 : lineShape l2 = .close ty) :
+    stepLine fuel env c active url line l st =
+      (stepLine fuel env c active url line l1 st >>= stepLine fuel env c active url line l2) := by
+  rw [stepLine, stepLine]
+  simp only [h, h1]
+  rw [openSection_empty_eq]
+  congr 1
+  funext s1
+  rw [stepLine]
+  simp only [h2]
+
+/-- non-vacuity: `<a/>`, `<a>`, `</a>` are classified as the theorem requires -/
+example : lineShape ['<', 'a', '/', '>'] = .open_ ['a'] none true ∧ lineShape ['<', 'a', '>'] = .open_ ['a'] none false ∧
+    lineShape ['<', '/', 'a', '>'] = .close ['a'] :=
+  ⟨PosEx.lineShape_of_classify ['<', 'a', '/', '>'] (by decide) _ (by decide) (by decide),
+   PosEx.lineShape_of_classify ['<', 'a', '>'] (by decide) _ (by decide) (by decide), by decide⟩
+
+/-- … and compared with the two-line spelling (`<type>` on line `line`, `</type>` on line `line2`): if the opening line fails,
+    `<type/>` fails with the same error; if the closing line fails, `<type/>` fails with an error of the same kind, text, URL and
+    value whose line number is the same when the error brought its own, and is the line of the `<type/>` where the two-line
+    spelling has the line of the `</type>`; and `<type/>` fails in no other way. -/
+theorem C08_empty_form_errors {σ} (c : PCtx σ) (url : Option Str) (line line2 : Nat) (ty : Str) (nm : Option Str) (st : PS σ)
+    (e : Err) :
+    openSection c url line ty nm true st = .error (.cfg e) ↔
+      openSection c url line ty nm false st = .error (.cfg e) ∨
+      ∃ st1 e2, openSection c url line ty nm false st = .ok st1 ∧ closeSection c url line2 ty st1 = .error (.cfg e2) ∧
+        closeSection c url line ty st1 = .error (.cfg e) ∧
+        e.kind = e2.kind ∧ e.url = e2.url ∧ e.tag = e2.tag ∧ e.value = e2.value ∧
+        (e.line = e2.line ∨ (e.line = some (line : Int) ∧ e2.line = some (line2 : Int))) := by
+  rw [openSection_empty_eq]
+  cases ho : openSection c url line ty nm false st with
+  | error f =>
+    constructor
+    · intro h; exact .inl h
+    · rintro (h | ⟨st1, e2, h, _⟩)
+      · exact h
+      · cases h
+  | ok st1 =>
+    rw [ok_bind]
+    constructor
+    · intro h
+      obtain ⟨e2, h2, k1, k2, k3, k4, k5⟩ := closeSection_line_shift c url line2 line ty st1 e h
+      refine .inr ⟨st1, e2, rfl, h2, h, k1.symm, k2.symm, k3.symm, k4.symm, ?_⟩
+      rcases k5 with k5 | ⟨k5, k6⟩
+      · exact .inl k5.symm
+      · exact .inr ⟨k6, k5⟩
+    · rintro (h | ⟨st1', e2, h, _, h3, _⟩)
+      · cases h
+      · cases h
+        exact h3
+
+/-- non-vacuity: a context whose `endSection` reports a missing item: `<a/>` on line 7 fails with a syntax error on line 7 -/
+example : openSection { PosEx.ctx with stop := fun _ _ _ => .error (.cfg { kind := .plain, tag := "no values; required" }) }
+    (some ['m']) 7 ['a'] none true PosEx.st0 = .error (synErr (some ['m']) 7 "close:no values; required") := rfl
+
+/-- both spellings give the error a line number (restated from the per-site lemma for the `<type/>` form) -/
+theorem C08_empty_form_error_has_line {σ} (c : PCtx σ) (url : Option Str) (line : Nat) (ty : Str) (nm : Option Str) (st : PS σ)
+    (e : Err) (h : openSection c url line ty nm true st = .error (.cfg e)) : ∃ m : Int, e.line = some m ∧ 0 ≤ m := by
+  unfold openSection at h
+  split at h
+  · cases h; exact ⟨line, rfl, by omega⟩
+  · rename_i f hf1 hf2
+    cases h
+    exact absurd rfl (hf1 e)
+  · rename_i ctx1 h1
+    simp only [if_true] at h
+    cases hcf : closeFixup url line (c.stop ctx1 ty nm) with
+    | ok s => rw [hcf] at h; cases h
+    | error f =>
+      rw [hcf] at h
+      cases h
+      obtain ⟨e', _, h2⟩ := closeFixup_error _ _ _ _ hcf
+      rcases h2 with ⟨_, rfl⟩ | ⟨_, rfl⟩
+      · exact fixPos_line _ _ _
+      · exact ⟨line, rfl, by omega⟩
+
+/-! ## conversion errors carry the offending text and the position recorded with it -/
+
+/-- `addValue` of the loader: when the key cannot be converted the error carries the key text and exactly the position the
+    parser handed in (this line, this resource); all its other errors are plain and carry no position -/
+theorem C08_key_conversion_error (st : LS) (key value : Str) (pos : Pos) (e : Err)
+    (h : lsValue st key value pos = .error (.cfg e)) :
+    (e.kind = .conversion ∧ e.value = some key ∧ e.line = some pos.line ∧ e.url = pos.url) ∨
+    (e.kind = .plain ∧ e.line = none ∧ e.url = none ∧ e.value = none) :=
+  lsValue_error st key value pos e h
+
+/-- `finish()`/`constuct()` of the loader: a conversion error is about a value the section holds — then it carries the text of
+    that value and the position stored with it (`VI.pos`) —, about a default of the schema (its text, its position in the
+    schema), about the section datatype (no text, no position), or about a command-line override. -/
+theorem C08_finish_conversion_error (conv : Conv) (s : Schema) (m : Matcher) (e : Err)
+    (h : finishMatcher conv s m = .error (.cfg e)) (hk : e.kind = .conversion) :
+    ConvAbout (matcherVIs m) (typeDflts m.ty) e :=
+  finishMatcher_conversion conv s m e h hk
+
+/-- **Whole parse, loader, conversion errors.**  A conversion error that ends the parse is described by `LoaderConv` at the
+    culprit line `n` of `u`: the key of that very line (key text, `(n, u)`), a value held by an open section (its text, and the
+    position stored with it, fixed up only if that position is not a proper one), a schema default, the section datatype
+    (`(n, u)`), or a command-line override. -/
+theorem C08_conversion_error_origin (fuel : Nat) (env : Env) (active : List Str) (url : Option Str)
+    (lines : List Str) (lineno : Nat) (st : PS LS) (e : Err)
+    (h : parseLines fuel env loaderCtx active url lines lineno st = .error (.cfg e)) (hk : e.kind = .conversion) :
+    ∃ u n sF, Culprit env loaderCtx fuel active url lines lineno st (.cfg e) u n sF ∧ Reach env url u ∧
+      LoaderConv u n sF e := by
+  obtain ⟨u, n, sF, hc⟩ := culprit_complete env loaderCtx fuel active url lines lineno st _ h
+  exact ⟨u, n, sF, hc, (culprit_where hc).1, loader_lineErr_conversion (culprit_lineErr hc) hk⟩
+
+/-- non-vacuity (instance of `PositionExLoader.lean`): `<s>` / `k v` / `</s>`, the datatype of `k` refusing `v`: the parse fails
+    when line 3 is read, the conversion error names line 2 of the resource and carries the text `v` -/
+example : parseLines 0 PosEx.env loaderCtx [] (some ['m']) PosEx.text 0 PosEx.ps0 = .error (.cfg PosEx.convErr) ∧
+    PosEx.convErr.kind = .conversion ∧ PosEx.convErr.value = some ['v'] ∧ PosEx.convErr.line = some 2 ∧
+    PosEx.convErr.url = some ['m'] ∧
+    Culprit PosEx.env loaderCtx 0 [] (some ['m']) PosEx.text 0 PosEx.ps0 (.cfg PosEx.convErr) (some ['m']) 3 PosEx.ps2 ∧
+    Handed PosEx.env loaderCtx 0 [] (some ['m']) PosEx.text 0 PosEx.ps0 ['k'] ['v'] { line := 2, url := some ['m'] } :=
+  ⟨PosEx.parse_conv_fails, rfl, rfl, rfl, rfl, PosEx.culprit_conv, PosEx.handed_conv⟩
+
+/-- **The stored position is the position of the line that gave the value.**  Whatever `(text, position)` pair an open section
+    of the loader holds when the culprit line is read was held before the parse started, or was handed over by `keyValue`
+    earlier in this parse — at any `%include` depth —: `Handed … key v p` says that a key line was reached whose value, after
+    substitution, is `v`, and `p` is that line's number and its resource's URL.  Such a position is a proper one (line ≥ 1), so
+    the fix-up on the closing line leaves its line number alone. -/
+theorem C08_held_value_was_handed_over {env : Env} {fuel : Nat} {active : List Str} {url : Option Str} {lines : List Str}
+    {lineno : Nat} {st : PS LS} {f : Fail} {u : Option Str} {n : Nat} {sF : PS LS}
+    (h : Culprit env loaderCtx fuel active url lines lineno st f u n sF) (v : Str) (p : Pos) (hr : RecLS sF.ctx v p) :
+    RecLS st.ctx v p ∨
+      ∃ key, Handed env loaderCtx fuel active url lines lineno st key v p ∧ Reach env url p.url ∧ 1 ≤ p.line ∧
+        fixLine n p.line = p.line := by
+  rcases culprit_rec records_loader h v p hr with h1 | ⟨key, h2⟩
+  · exact .inl h1
+  · obtain ⟨hreach, m, hm, hw⟩ := h2.where_
+    have h1 : 1 ≤ p.line := by
+      rcases hw with ⟨_, h3, _⟩ | ⟨_, _, _, _, h3, _⟩ <;> omega
+    exact .inr ⟨key, h2, hreach, h1, fixLine_nonneg _ _ (by omega)⟩
+
+/-- the same for any context that only stores what `addValue` gives it (`Records c Rec`) -/
+theorem C08_recorded_position_was_handed_over {σ} {c : PCtx σ} {Rec : σ → Str → Pos → Prop} (hR : Records c Rec) {env : Env}
+    {fuel : Nat} {active : List Str} {url : Option Str} {lines : List Str} {lineno : Nat} {st : PS σ} {f : Fail}
+    {u : Option Str} {n : Nat} {sF : PS σ} (h : Culprit env c fuel active url lines lineno st f u n sF) (v : Str) (p : Pos)
+    (hr : Rec sF.ctx v p) :
+    Rec st.ctx v p ∨ ∃ key, Handed env c fuel active url lines lineno st key v p :=
+  culprit_rec hR h v p hr
+
+/-! ## the whole load (`loadConfig` / `loadConfigFile` with command-line overrides) -/
+
+/-- Every syntax, conversion, replacement or substitution-syntax error of a whole load carries a line number: a real one when
+    it comes from the parse or from a value of the configuration; the pseudo line `-1` when it is about the command line, about
+    a section datatype applied after the last line, or about the schema's own datatype. -/
+theorem C08_load_error_has_line (conv : Conv) (env : Env) (pkgs : Str → Pkg) (schema : Schema) (url : Option Str)
+    (lines : List Str) (specs : List Str) (e : Err) (h : load conv env pkgs schema url lines specs = .error (.cfg e))
+    (hk : e.kind = .syntax ∨ e.kind = .conversion ∨ e.kind = .replacement ∨ e.kind = .substSyntax) :
+    e.line.isSome = true := by
+  rcases load_error conv env pkgs schema url lines specs e h with hc | ⟨bag, hp | ⟨ps, top, _, _, hf | ⟨_, _, hl, _⟩⟩⟩
+  · rw [hc.1]; rfl
+  · exact (C08_loader_error_has_line _ _ _ _ _ _ _ e hp hk).1
+  · rcases finishMatcher_error _ _ _ _ hf with hconv | hplain
+    · cases finishMatcher_conversion _ _ _ _ hf hconv with
+      | held w _ _ hl _ => rw [hl]; rfl
+      | dflt w _ _ hl _ => rw [hl]; rfl
+      | sect _ hl _ => rw [hl]; rfl
+      | cmd _ hl _ => rw [hl]; rfl
+    · rw [hplain.1] at hk
+      rcases hk with h | h | h | h <;> cases h
+  · rw [hl]; rfl
+
+/-- **Conversion errors of a whole load.**  Such an error is about the command line; or it ends the parse and is described by
+    `C08_conversion_error_origin`; or it is raised after the last line, when the top-level section is finished: then it is about
+    a top-level value — and carries that value's text and the position stored with it, which is the line and resource at which
+    `keyValue` handed it over during this very parse —, about a schema default, about a command-line override, or about the
+    top-level/schema datatype (no text, pseudo line `-1`). -/
+theorem C08_load_conversion_error (conv : Conv) (env : Env) (pkgs : Str → Pkg) (schema : Schema) (url : Option Str)
+    (lines : List Str) (specs : List Str) (e : Err) (h : load conv env pkgs schema url lines specs = .error (.cfg e))
+    (hk : e.kind = .conversion) :
+    CmdLineErr e ∨
+    ∃ bag,
+      (∃ u n sF, Culprit env loaderCtx 64 (loadActive url) url lines 0 (loadState conv pkgs schema bag) (.cfg e) u n sF ∧
+        Reach env url u ∧ LoaderConv u n sF e) ∨
+      (∃ ps top, parseLines 64 env loaderCtx (loadActive url) url lines 0 (loadState conv pkgs schema bag) = .ok ps ∧
+        ps.ctx.stack = [top] ∧
+        ((∃ (w : VI) (key : Str), e.value = some w.value ∧ e.line = some w.pos.line ∧ e.url = w.pos.url ∧ 1 ≤ w.pos.line ∧
+            Handed env loaderCtx 64 (loadActive url) url lines 0 (loadState conv pkgs schema bag) key w.value w.pos) ∨
+         (∃ w : VI, w ∈ typeDflts top.ty ∧ e.value = some w.value ∧ e.line = some w.pos.line ∧ e.url = w.pos.url) ∨
+         (e.value.isSome = true ∧ e.line = some (-1) ∧ e.url = some "<command-line option>".toList) ∨
+         (e.value = none ∧ e.line = some (-1) ∧ e.url = none))) := by
+  rcases load_error conv env pkgs schema url lines specs e h with hc | ⟨bag, hp | ⟨ps, top, hps, htop, hf | ⟨_, hv, hl, hu⟩⟩⟩
+  · exact .inl hc
+  · exact .inr ⟨bag, .inl (C08_conversion_error_origin _ _ _ _ _ _ _ e hp hk)⟩
+  · refine .inr ⟨bag, .inr ⟨ps, top, hps, htop, ?_⟩⟩
+    cases finishMatcher_conversion _ _ _ _ hf hk with
+    | held w hw hv hl hu =>
+      have hr : RecLS ps.ctx w.value w.pos := ⟨top, by rw [htop]; exact List.mem_singleton.mpr rfl, hw⟩
+      rcases parse_rec records_loader env _ _ _ _ _ _ _ _ _ hps hr with h0 | ⟨key, hh⟩
+      · exact absurd h0 (loadState_holds_nothing _ _ _ _ _ _)
+      · obtain ⟨_, m, hm, hw'⟩ := hh.where_
+        have h1 : 1 ≤ w.pos.line := by
+          rcases hw' with ⟨_, h3, _⟩ | ⟨_, _, _, _, h3, _⟩ <;> omega
+        exact .inl ⟨w, key, hv, hl, hu, h1, hh⟩
+    | dflt w hw hv hl hu => exact .inr (.inl ⟨w, hw, hv, hl, hu⟩)
+    | sect hv hl hu => exact .inr (.inr (.inr ⟨hv, hl, hu⟩))
+    | cmd hv hl hu => exact .inr (.inr (.inl ⟨hv, hl, hu⟩))
+  · exact .inr ⟨bag, .inr ⟨ps, top, hps, htop, .inr (.inr (.inr ⟨hv, hl, hu⟩))⟩⟩
 
 end ZCV.Props.C08
